@@ -323,7 +323,19 @@ func (e *Exec) byContract(st *State, fr *Frame, key string, ct *Contract, names 
 	}
 	post.bindResult(res)
 	for _, en := range ct.Ensures {
-		st.assume(post.evalBool(en.E))
+		// postconditions that mention callee-local variables are internal to
+		// the callee (checked there, not visible to callers)
+		func() {
+			defer func() {
+				if r := recover(); r != nil {
+					if ce, ok := r.(contractError); ok && (strings.HasPrefix(ce.msg, "unknown identifier") || strings.HasPrefix(ce.msg, "unknown qualified identifier")) {
+						return
+					}
+					panic(r)
+				}
+			}()
+			st.assume(post.evalBool(en.E))
+		}()
 	}
 	for _, gs := range ct.GhostSet {
 		st.Ghost[gs.Name] = post.eval(gs.E)
